@@ -141,6 +141,19 @@ def JobRec.name (r : JobRec) : Bytes := r.jname.render
 def JobRec.target (r : JobRec) : Target :=
   (r.node, r.fork, r.jname.chunk, r.uniq, r.jname.file)
 
+/-! ## Name lengths -/
+
+/-- `NAME_MAX` of the file systems martian runs on: a single path component
+longer than this makes `mkdir` / `open` fail with ENAMETOOLONG. -/
+def nameMax : Nat := 255
+
+/-- number of bytes of a key that `url.PathEscape` percent-encodes -/
+def escCount (k : Bytes) : Nat := k.countP shouldEscape
+
+/-- directory name of the fork for map key `k` of a singly mapped call
+(`mapKeyFork.forkString`): `fork_` ++ makeKeySafe(k) -/
+def mapForkDir (k : Bytes) : Bytes := sForkU ++ pathEscape k
+
 /-! ## A router that remembers (NOT the code's: a negative model)
 
 A refresh cycle that memoises the (node, fork) lookup under the plain
